@@ -99,6 +99,11 @@ def run(chk):
     chk.explanation = ("Static keyword-table rule on the reader's alternation; bench_to_circuit / circuit_to_bench evaluated from io.py's source by the checker's evaluator (faithful `re` model) on dialect texts and "
                        "model circuits, results simulated exhaustively against the denoted functions; operand-multiplicity rule on every emitted gate line.")
     chk.assume("regex semantics are Python's `re` on plain strings; DFF blackbox pins are named D and Q as in the reader")
+    from ..core import type_vocabulary
+    from ..structural import dispatch_rule, vocabulary_rule
+
+    vocabulary_rule(chk, repo, "C15.S.vocabulary", [(FILE, "circuit_to_bench")])
+    dispatch_rule(chk, repo, "C15.S.dispatch", FILE, "circuit_to_bench", set(type_vocabulary(repo)["supported_types"]) - {"x", "bb_input", "bb_output", "input"}, min_branches=2)
     P = Package(repo)
     fr_ = repo.func(FILE, "bench_to_circuit")
     fw = repo.func(FILE, "circuit_to_bench")
